@@ -277,7 +277,9 @@ void World::run_atomic()
     for (size_t pi = 0; pi < positions.size() && !stop; ++pi)
     {
         const FaultSpec& f = positions[pi];
-        if (!at_S)
+        // only an F1 attempt may continue in place after an atomically failed F1 attempt; every real-path fault
+        // starts from the restored image and a cold cache, exactly as its single-position replay does
+        if (!at_S || f.kind != FK_STMT)
         {
             if (!restore_state(S))
                 break;
